@@ -229,6 +229,13 @@ func (c *Checker) checkCharge(x *callCtx) {
 		}
 	}
 	if got.Cmp(new(big.Int).SetUint64(want)) != 0 {
+		// one call site is recorded as a known finding (DESIGN §7.4, K1) and gets a message of its own, so that any
+		// other wrong charge — of this function too — is still reported under the general text
+		if x.call.Fn == FnClaim && x.call.CallType == 1 && IsContract(x.call.Caller) &&
+			c.w.Present(x.call.Shard, x.call.Rcv) && x.res.Out.GasRemaining == 0 && len(x.res.Out.OutputAccounts) == 0 {
+			c.report(x, "C16", "ClaimDeveloperRewards by a smart-contract caller through an asynchronous call on the contract's own shard consumed all %s gas: GasRemaining is 0 and the output transfer that carried the remaining gas was dropped with the output accounts (the schedule in force prices this call at %d)", got, want)
+			return
+		}
 		c.report(x, "C16", "charged %s gas, the schedule in force prices this call at %d", got, want)
 	}
 }
